@@ -14,6 +14,7 @@ type PlanEntry struct {
 	Owner     string
 	Group     string
 	MTime     int64 // expected mtime of a regular file; 0 = not asserted
+	MTimeAlt  int64 // second acceptable value (source mtime rounded instead of truncated); 0 = none
 	Node      *Node
 	Src       string
 	Link      string
@@ -107,6 +108,9 @@ func (c *Case) Plan(format string) map[string]*PlanEntry {
 					if x.Kind == "file" {
 						pe.Special = x.Node.Perm&(os.ModeSetuid|os.ModeSetgid|os.ModeSticky) != 0
 						pe.MTime = firstNonZero(s.MTime, x.Node.MTime)
+						if s.MTime == 0 {
+							pe.MTimeAlt = x.Node.MTimeRounded()
+						}
 					}
 				}
 			case x.Kind == "dir":
@@ -137,6 +141,9 @@ func (c *Case) Plan(format string) map[string]*PlanEntry {
 					em = fi.MTime
 				}
 				pe.MTime = firstNonZero(em, s.MTime, x.Node.MTime)
+				if em == 0 && s.MTime == 0 {
+					pe.MTimeAlt = x.Node.MTimeRounded()
+				}
 			}
 			plan[pe.Path] = pe
 		}
